@@ -319,6 +319,11 @@ class ScriptServer:
                 conn.send(b'\x00\xffnot http at all\r\n\r\n')
                 conn.close()
                 return
+            if mode == 'cutbody':
+                # the header arrives, the connection is lost in the middle of the body
+                conn.send(b'HTTP/1.1 %d X\r\nContent-Length: 10\r\n\r\nabc' % rep.get('status', 200))
+                conn.close()
+                return
             conn.send(response_bytes(rep))
 
 
@@ -553,6 +558,12 @@ def model_replies(log, replies, loads_iter):
     out = []
     for k in range(len(log)):
         rep = replies[k] if k < len(replies) else {'status': 200, 'mode': 'resp'}
+        if rep.get('mode', 'resp') == 'cutbody':
+            # the header was processed (the tracker saw it), then the download failed: for the visit that is a
+            # REMOTE_ERRORS exception after the request, like a reset
+            next(loads_iter, None)
+            out.append((0, False, 3, None))
+            continue
         if rep.get('mode', 'resp') != 'resp':
             out.append((0, False, 3 if rep['mode'] == 'close' else 4, None))
             continue
